@@ -814,8 +814,12 @@ class BGP(protocol.Protocol):
                     value = copy.deepcopy(attr)
                     value14 = value[14]
                     del value14['nlri']
+                    # the route is identified by RD and prefix; its label is an attribute
+                    value14['label'] = prefix.get('label')
                     key = "{"
                     for k in sorted(prefix.keys()):
+                        if k == 'label':
+                            continue
                         key += '"' + str(k) + '"'
                         key += ':'
                         key += '"' + str(prefix[k]) + '"'
@@ -856,6 +860,9 @@ class BGP(protocol.Protocol):
                 for prefix in attr[15]['withdraw']:
                     key = "{"
                     for k in sorted(prefix.keys()):
+                        if k == 'label':
+                            # a withdrawal carries the withdrawn label 0x800000, not the route's
+                            continue
                         key += '"' + str(k) + '"'
                         key += ':'
                         key += '"' + str(prefix[k]) + '"'
